@@ -201,7 +201,9 @@ def specOf (f : Facts) : Facts :=
   { f with
     wait := { cfun := "p_cond_variable_wait", nullChecks := ["cond", "mutex"], native := .cond_wait,
               args := [.field "cond" "hdl"] ++ f.mutexLock.args.take 1, trueIffZero := true },
-    signal := { cfun := "p_cond_variable_signal", nullChecks := ["cond"], native := .cond_signal,
+    -- "wakes at least one": a signal implemented with pthread_cond_broadcast also satisfies it
+    signal := { cfun := "p_cond_variable_signal", nullChecks := ["cond"],
+                native := if f.signal.native = .cond_broadcast then .cond_broadcast else .cond_signal,
                 args := [.field "cond" "hdl"], trueIffZero := true },
     broadcast := { cfun := "p_cond_variable_broadcast", nullChecks := ["cond"], native := .cond_broadcast,
                    args := [.field "cond" "hdl"], trueIffZero := true },
